@@ -1,34 +1,30 @@
 (* Proofs about OasisReal.v.
-   - The round trip of oasis_write_real / oasis_read_real is REFUTED on the faithful model: the
-     writer tests `trunc(inverse) == inverse` on the rounded quotient 1.0/value, so a value that is
-     not the reciprocal of an integer can be stored as one (finding oasis_write_real:reciprocal).
-   - The 8-byte form (type 7) round-trips every bit pattern. *)
-Require Import Base OasisInt GdsReal GdsRealProofs OasisReal.
+   oasis_write_real stores a value as "reciprocal of an integer" only when 1.0 / (1.0 / value) == value
+   (repair of finding oasis_write_real:reciprocal: the test used to be on the rounded quotient alone).
+   - the former failing inputs now round-trip (Examples below, by computation),
+   - the 8-byte form (type 7) round-trips every bit pattern,
+   - the reciprocal form round-trips whenever the writer chooses it (general theorem at the end). *)
+Require Import Base OasisInt OasisIntProofs GdsReal GdsRealProofs OasisReal.
+From Coq Require Import Reals Lia Lra.
 From Flocq Require Import Core BinarySingleNaN Binary Bits.
 Local Open Scope N_scope.
 
-(* 0.19999999999999998 = 0x3FC9999999999999 is written as "reciprocal of 5" (bytes 02 05) and read
-   back as 0.2 = 0x3FC999999999999A *)
-Theorem oas_real_roundtrip_refuted :
-  exists v : N, dbl_finite v = true
-    /\ enc_real v = [2; 5]
-    /\ dec_real (enc_real v) = Ok (v + 1, [])
-    /\ dec_real (enc_real v) <> Ok (v, []).
-Proof.
-  exists 4596373779694328217. split; [vm_compute; reflexivity|]. split; [vm_compute; reflexivity|].
-  split; [vm_compute; reflexivity|]. vm_compute. intros H. discriminate H.
-Qed.
+(* 0.19999999999999998 = 0x3FC9999999999999 used to be written as "reciprocal of 5" (02 05) and read
+   back as 0.2; it is now written in the 8-byte form and comes back bit for bit; 0.2 itself still
+   uses the reciprocal form *)
+Example oas_real_roundtrip_former_witness :
+  enc_real 4596373779694328217 = [7; 153; 153; 153; 153; 153; 153; 201; 63]
+  /\ dec_real (enc_real 4596373779694328217) = Ok (4596373779694328217, [])
+  /\ enc_real 4596373779694328218 = [2; 5]
+  /\ dec_real (enc_real 4596373779694328218) = Ok (4596373779694328218, []).
+Proof. repeat split; vm_compute; reflexivity. Qed.
 
-(* not only neighbours of 1/n: for |v| between 2^-64 and 2^-53 every quotient 1.0/v is an
-   integer-valued double, so every such v is stored as a reciprocal; here 0x3C7E36AFAF08646A
-   (about 2.6e-17) comes back one unit in the last place higher *)
-Theorem oas_real_roundtrip_refuted_small :
-  exists v : N, dbl_finite v = true
-    /\ hd 0 (enc_real v) = 2
-    /\ dec_real (enc_real v) = Ok (v + 1, []).
-Proof.
-  exists 4358981617524958314. split; [vm_compute; reflexivity|]. split; vm_compute; reflexivity.
-Qed.
+(* for |v| between 2^-64 and 2^-53 every quotient 1.0/v is an integer-valued double; 0x3C7E36AFAF08646A
+   (about 2.6e-17) used to come back one unit in the last place higher *)
+Example oas_real_roundtrip_former_witness_small :
+  hd 0 (enc_real 4358981617524958314) = 7
+  /\ dec_real (enc_real 4358981617524958314) = Ok (4358981617524958314, []).
+Proof. split; vm_compute; reflexivity. Qed.
 
 (* the sign of a negative zero is not preserved (-0.0 is written as the integer 0); numerically equal *)
 Theorem oas_real_negative_zero :
@@ -62,11 +58,268 @@ Proof.
   destruct (int_magnitude_lt64 (b64_of_bits (Z.of_N bits))) as [v|].
   - cbn [hd] in H7. destruct (b64_ge0 _); discriminate.
   - destruct (int_magnitude_lt64 (b64_div mode_NE b64_one (b64_of_bits (Z.of_N bits)))) as [v|].
-    + cbn [hd] in H7. destruct (b64_ge0 _); discriminate.
+    + destruct (b64_eqb _ _).
+      * cbn [hd] in H7. destruct (b64_ge0 _); discriminate.
+      * apply oas_real_double_form_roundtrip_lemma. exact Hb.
     + apply oas_real_double_form_roundtrip_lemma. exact Hb.
 Qed.
 
-Print Assumptions oas_real_roundtrip_refuted.
-Print Assumptions oas_real_roundtrip_refuted_small.
+(* ================================================================== the forms that go through floating-point operations *)
+Local Open Scope Z_scope.
+Notation B2R64 := (B2R 53 1024).
+Notation fin64 := (is_finite 53 1024).
+
+(* the integer test gives the magnitude of a finite float *)
+Lemma int_magnitude_spec f v :
+  int_magnitude_lt64 f = Some v ->
+  fin64 f = true /\ Rabs (B2R64 f) = IZR v /\ 0 <= v < 2 ^ 64.
+Proof.
+  destruct f as [s|s|s pl H|s m e H]; cbn [int_magnitude_lt64]; try discriminate.
+  - intros [= <-]. split; [reflexivity|]. split; [cbn; apply Rabs_R0|lia].
+  - intros Hv. split; [reflexivity|].
+    assert (Habs : Rabs (B2R64 (B754_finite 53 1024 s m e H)) = (IZR (Z.pos m) * bpow radix2 e)%R).
+    { cbn [B2R]. rewrite <- F2R_Zabs. rewrite abs_cond_Zopp. reflexivity. }
+    rewrite Habs. clear Habs.
+    assert (HM0 : 0 < Z.pos m) by lia. revert Hv. generalize (Z.pos m) HM0. clear H. intros M HM Hv.
+    destruct (0 <=? e) eqn:Ee.
+    + destruct (M * 2 ^ e <? 2 ^ 64) eqn:Hlt; [|discriminate]. injection Hv as <-.
+      assert (Hp : 0 < 2 ^ e) by (apply Z.pow_pos_nonneg; lia).
+      apply Z.ltb_lt in Hlt. apply Z.leb_le in Ee. split; [|split; [apply Z.mul_nonneg_nonneg; lia|exact Hlt]].
+      rewrite mult_IZR. f_equal. rewrite (IZR_Zpower radix2) by lia. reflexivity.
+    + destruct (M mod 2 ^ (- e) =? 0) eqn:Hmod; [|discriminate].
+      destruct (M / 2 ^ (- e) <? 2 ^ 64) eqn:Hlt; [|discriminate]. injection Hv as <-.
+      assert (Hp : 0 < 2 ^ (- e)) by (apply Z.pow_pos_nonneg; lia).
+      split; [|split; [apply Z.div_pos; lia|lia]].
+      assert (Hm : M = M / 2 ^ (- e) * 2 ^ (- e)).
+      { pose proof (Z.div_mod (M) (2 ^ (- e))). lia. }
+      rewrite Hm at 1. rewrite mult_IZR, (IZR_Zpower radix2) by lia.
+      rewrite Rmult_assoc, <- bpow_plus. replace (- e + e) with 0 by lia. cbn [bpow]. ring.
+Qed.
+
+Lemma b64_of_uint_magnitude f v :
+  int_magnitude_lt64 f = Some v ->
+  fin64 (b64_of_uint (Z.to_N v)) = true
+  /\ B2R64 (b64_of_uint (Z.to_N v)) = IZR v
+  /\ Bsign 53 1024 (b64_of_uint (Z.to_N v)) = false.
+Proof.
+  intros Hv. destruct (int_magnitude_spec f v Hv) as (Hfin & Habs & Hr).
+  unfold b64_of_uint. rewrite Z2N.id by lia.
+  pose proof (binary_normalize_correct 53 1024 eq_refl eq_refl mode_NE v 0 false) as H.
+  assert (HF : @F2R radix2 {| Fnum := v; Fexp := 0 |} = IZR v).
+  { unfold F2R. cbn [Fnum Fexp bpow]. ring. }
+  rewrite HF in H.
+  assert (Hgen : generic_format radix2 (SpecFloat.fexp 53 1024) (IZR v)).
+  { rewrite <- Habs. apply generic_format_abs. apply generic_format_B2R. }
+  rewrite round_generic in H; [|apply valid_rnd_round_mode|exact Hgen].
+  rewrite Rlt_bool_true in H.
+  - destruct H as (H1 & H2 & H3). split; [exact H2|]. split; [exact H1|].
+    rewrite H3. destruct (Rcompare_spec (IZR v) 0) as [Hlt| |]; try reflexivity.
+    exfalso. apply lt_IZR in Hlt. lia.
+  - rewrite Rabs_pos_eq by (apply IZR_le; lia).
+    apply Rlt_le_trans with (IZR (2 ^ 64)); [apply IZR_lt; lia|].
+    change (2 ^ 64) with (Zpower radix2 64). rewrite IZR_Zpower by lia. apply bpow_le. lia.
+Qed.
+
+Lemma b64_one_eq : exists H, b64_one = B754_finite 53 1024 false 4503599627370496 (-52) H.
+Proof. vm_compute. eexists. reflexivity. Qed.
+
+Lemma B2R_one : B2R64 b64_one = 1%R.
+Proof.
+  destruct b64_one_eq as [H ->]. cbn [B2R cond_Zopp]. unfold F2R. cbn [Fnum Fexp bpow].
+  change (Z.pow_pos radix2 52) with 4503599627370496.
+  field.
+Qed.
+
+Lemma fin_not_nan (x : binary64) : fin64 x = true -> is_nan 53 1024 x = false.
+Proof. destruct x; cbn; congruence. Qed.
+
+(* two quotients of magnitude at most 1 that agree as real numbers and in sign are the same double *)
+Lemma b64_div_eq x1 y1 x2 y2 :
+  fin64 x1 = true -> fin64 x2 = true -> fin64 y1 = true -> fin64 y2 = true ->
+  B2R64 y1 <> 0%R -> B2R64 y2 <> 0%R ->
+  (B2R64 x1 / B2R64 y1 = B2R64 x2 / B2R64 y2)%R ->
+  (Rabs (B2R64 x2 / B2R64 y2) <= 1)%R ->
+  xorb (Bsign 53 1024 x1) (Bsign 53 1024 y1) = xorb (Bsign 53 1024 x2) (Bsign 53 1024 y2) ->
+  b64_div mode_NE x1 y1 = b64_div mode_NE x2 y2 /\ fin64 (b64_div mode_NE x2 y2) = true.
+Proof.
+  intros Fx1 Fx2 Fy1 Fy2 N1 N2 Hq Hle Hs.
+  unfold b64_div.
+  pose proof (Bdiv_correct 53 1024 eq_refl eq_refl binop_nan_pl64 mode_NE x1 y1 N1) as H1.
+  pose proof (Bdiv_correct 53 1024 eq_refl eq_refl binop_nan_pl64 mode_NE x2 y2 N2) as H2.
+  rewrite Hq in H1.
+  assert (Hb : (Rabs (round radix2 (SpecFloat.fexp 53 1024) (round_mode mode_NE) (B2R64 x2 / B2R64 y2))
+                < bpow radix2 1024)%R).
+  { apply Rle_lt_trans with 1%R.
+    - apply abs_round_le_generic; [apply fexp_correct; reflexivity|apply valid_rnd_round_mode| |exact Hle].
+      rewrite <- B2R_one. apply generic_format_B2R.
+    - change 1%R with (bpow radix2 0). apply bpow_lt. lia. }
+  rewrite Rlt_bool_true in H1 by exact Hb. rewrite Rlt_bool_true in H2 by exact Hb.
+  destruct H1 as (R1 & F1 & S1). destruct H2 as (R2 & F2 & S2).
+  rewrite Fx1 in F1. rewrite Fx2 in F2.
+  split; [|exact F2].
+  apply B2R_Bsign_inj; try assumption.
+  - rewrite R1, R2. reflexivity.
+  - rewrite S1 by (apply fin_not_nan; exact F1). rewrite S2 by (apply fin_not_nan; exact F2). exact Hs.
+Qed.
+
+Lemma b64_one_facts : fin64 b64_one = true /\ Bsign 53 1024 b64_one = false.
+Proof. destruct b64_one_eq as [H ->]. split; reflexivity. Qed.
+
+Lemma bits64_of_bits bits : (bits < 2 ^ 64)%N -> bits64 (b64_of_bits (Z.of_N bits)) = bits.
+Proof.
+  intros Hb. unfold bits64, bits_of_b64, b64_of_bits.
+  rewrite bits_of_binary_float_of_bits; [apply N2Z.id|].
+  change (2 ^ (52 + 11 + 1)) with (Z.of_N (2 ^ 64)). lia.
+Qed.
+
+Theorem oas_real_reciprocal_form_roundtrip_lemma bits rest :
+  (bits < 2 ^ 64)%N ->
+  fin64 (b64_of_bits (Z.of_N bits)) = true ->
+  (hd 0%N (enc_real bits) = 2%N \/ hd 0%N (enc_real bits) = 3%N) ->
+  dec_real (enc_real bits ++ rest) = Ok (bits, rest).
+Proof.
+  intros Hb Hfin Hty. pose proof (bits64_of_bits bits Hb) as Hbits. unfold enc_real in *.
+  remember (b64_of_bits (Z.of_N bits)) as value eqn:Eval.
+  destruct (int_magnitude_lt64 value) as [v0|] eqn:Hvi.
+  { cbn [hd] in Hty. destruct (b64_ge0 value); destruct Hty; discriminate. }
+  remember (b64_div mode_NE b64_one value) as inverse eqn:Einv.
+  destruct (int_magnitude_lt64 inverse) as [v|] eqn:Hinv.
+  2:{ cbn [hd] in Hty. destruct Hty; discriminate. }
+  destruct (b64_eqb (b64_div mode_NE b64_one inverse) value) eqn:Hguard.
+  2:{ cbn [hd] in Hty. destruct Hty; discriminate. }
+  clear Hty.
+  destruct (int_magnitude_spec inverse v Hinv) as (Fi & Ai & Rv).
+  destruct (b64_of_uint_magnitude inverse v Hinv) as (Fg & Bg & Sg).
+  destruct b64_one_facts as (F1 & S1).
+  assert (Hval : is_finite_strict 53 1024 value = true /\ B2R64 value <> 0%R).
+  { clear Eval Hbits Hguard Einv. destruct value as [s|s|s pl H|s m e H]; cbn in Hvi, Hfin; try discriminate.
+    split; [reflexivity|]. cbn [B2R]. apply F2R_neq_0. cbn [Fnum]. destruct s; discriminate. }
+  destruct Hval as (Hstrict & Hv0).
+  clear Einv. destruct inverse as [si|si|si pl Hpl|si mi ei Hbi]; try discriminate Fi.
+  - (* 1.0 / value = 0 : then 1.0 / inverse is infinite and differs from the finite value *)
+    exfalso. destruct b64_one_eq as [H1 E1]. rewrite E1 in Hguard.
+    clear Eval Hbits. destruct value as [s|s|s pl H|s m e H]; try discriminate Hstrict.
+    destruct si, s; vm_compute in Hguard; discriminate Hguard.
+  - (* the quotient is a non-zero integer *)
+    set (inverse := B754_finite 53 1024 si mi ei Hbi) in *.
+    assert (Hi0 : B2R64 inverse <> 0%R).
+    { cbn [B2R inverse]. apply F2R_neq_0. cbn [Fnum]. destruct si; discriminate. }
+    assert (HB : B2R64 inverse = if si then (- IZR v)%R else IZR v).
+    { destruct si; cbn [B2R inverse cond_Zopp] in Ai |- *.
+      - rewrite Rabs_left in Ai by (apply F2R_lt_0; reflexivity). lra.
+      - rewrite Rabs_pos_eq in Ai by (apply Rlt_le, F2R_gt_0; reflexivity). exact Ai. }
+    assert (Hv1 : (1 <= IZR v)%R).
+    { apply IZR_le. destruct (Z.eq_dec v 0) as [->|]; [|lia]. exfalso. apply Hi0. rewrite HB.
+      destruct si; lra. }
+    set (g := b64_of_uint (Z.to_N v)) in *.
+    set (one' := if b64_ge0 inverse then b64_one else b64_opp b64_one).
+    assert (Hone' : fin64 one' = true /\ B2R64 one' = (if si then -1 else 1)%R /\ Bsign 53 1024 one' = si).
+    { unfold one'. cbn [b64_ge0 inverse]. destruct si; cbn [negb].
+      - unfold b64_opp. rewrite is_finite_Bopp, B2R_Bopp, Bsign_Bopp, B2R_one, S1, F1 by (apply fin_not_nan; exact F1).
+        repeat split.
+      - rewrite B2R_one. repeat split; assumption. }
+    destruct Hone' as (Fo & Bo & So).
+    destruct (b64_div_eq one' g b64_one inverse) as (Hr & Fd); try assumption.
+    + rewrite Bg. lra.
+    + rewrite Bo, Bg, B2R_one, HB. destruct si; field; lra.
+    + rewrite B2R_one, HB. unfold Rdiv. rewrite Rmult_1_l, Rabs_inv.
+      replace (Rabs (if si then (- IZR v)%R else IZR v)) with (IZR v)
+        by (destruct si; [rewrite Rabs_Ropp|]; rewrite Rabs_pos_eq; lra).
+      rewrite <- Rinv_1. apply Rinv_le; lra.
+    + rewrite So, Sg, S1. cbn [Bsign inverse]. destruct si; reflexivity.
+    + (* the guard: the reciprocal read back is the value *)
+      set (d := b64_div mode_NE b64_one inverse) in *.
+      assert (Hd : d = value).
+      { unfold b64_eqb, b64_compare in Hguard.
+        rewrite Bcompare_correct in Hguard by assumption.
+        destruct (Rcompare (B2R64 d) (B2R64 value)) eqn:Hc; try discriminate Hguard.
+        apply Rcompare_Eq_inv in Hc.
+        apply B2R_inj; try assumption.
+        clear Hr. destruct d; cbn in Fd; try discriminate Fd; [|reflexivity].
+        exfalso. apply Hv0. rewrite <- Hc. reflexivity. }
+      assert (Hn : (Z.to_N v < two64)%N) by (unfold two64; change 18446744073709551616%N with (Z.to_N (2 ^ 64)); lia).
+      fold g in Hr. unfold one' in Hr. cbn [b64_ge0 inverse] in Hr |- *.
+      destruct si; cbn [negb app dec_real dec_real_by_type] in Hr |- *;
+        rewrite uint_roundtrip_lemma by exact Hn; cbn [obind]; fold g; rewrite Hr, Hd, Hbits; reflexivity.
+Qed.
+
+(* ---- the integer forms (types 0 / 1) *)
+Theorem oas_real_integer_form_roundtrip_lemma bits rest :
+  (bits < 2 ^ 64)%N ->
+  bits <> 9223372036854775808%N ->              (* -0.0 is written as the integer 0: reads back +0.0 *)
+  (hd 0%N (enc_real bits) = 0%N \/ hd 0%N (enc_real bits) = 1%N) ->
+  dec_real (enc_real bits ++ rest) = Ok (bits, rest).
+Proof.
+  intros Hb Hnz Hty. pose proof (bits64_of_bits bits Hb) as Hbits. unfold enc_real in *.
+  remember (b64_of_bits (Z.of_N bits)) as value eqn:Eval.
+  destruct (int_magnitude_lt64 value) as [v|] eqn:Hvi.
+  2:{ destruct (int_magnitude_lt64 (b64_div mode_NE b64_one value)) as [w|].
+      - destruct (b64_eqb _ _); cbn [hd] in Hty; [destruct (b64_ge0 _)|]; destruct Hty; discriminate.
+      - cbn [hd] in Hty. destruct Hty; discriminate. }
+  clear Hty.
+  destruct (int_magnitude_spec value v Hvi) as (Fv & Av & Rv).
+  destruct (b64_of_uint_magnitude value v Hvi) as (Fg & Bg & Sg).
+  assert (Hn : (Z.to_N v < two64)%N) by (unfold two64; change 18446744073709551616%N with (Z.to_N (2 ^ 64)); lia).
+  set (g := b64_of_uint (Z.to_N v)) in *.
+  clear Eval. destruct value as [s|s|s pl H|s m e H]; try discriminate Fv.
+  - (* zero *)
+    destruct s.
+    + exfalso. apply Hnz. rewrite <- Hbits. vm_compute. reflexivity.
+    + cbn [b64_ge0 app dec_real dec_real_by_type]. rewrite uint_roundtrip_lemma by exact Hn. cbn [obind]. fold g.
+      assert (Hg : g = B754_zero 53 1024 false).
+      { apply B2R_Bsign_inj; try assumption; try reflexivity; try (rewrite Sg; reflexivity).
+        rewrite Bg. cbn in Av. rewrite Rabs_R0 in Av. rewrite <- Av. reflexivity. }
+      rewrite Hg, Hbits. reflexivity.
+  - set (value := B754_finite 53 1024 s m e H) in *.
+    cbn [b64_ge0 value]. destruct s; cbn [negb app dec_real dec_real_by_type];
+      rewrite uint_roundtrip_lemma by exact Hn; cbn [obind]; fold g.
+    + (* negative *)
+      assert (Hg : b64_opp g = value).
+      { unfold b64_opp. apply B2R_Bsign_inj; try reflexivity;
+          try (rewrite is_finite_Bopp; exact Fg);
+          try (rewrite Bsign_Bopp by (apply fin_not_nan; exact Fg); rewrite Sg; reflexivity).
+        rewrite B2R_Bopp, Bg, <- Av. cbn [B2R value cond_Zopp].
+        rewrite Rabs_left by (apply F2R_lt_0; reflexivity). ring. }
+      rewrite Hg, Hbits. reflexivity.
+    + assert (Hg : g = value).
+      { apply B2R_Bsign_inj; try assumption; try reflexivity; try (rewrite Sg; reflexivity).
+        rewrite Bg, <- Av. cbn [B2R value cond_Zopp].
+        rewrite Rabs_pos_eq by (apply Rlt_le, F2R_gt_0; reflexivity). reflexivity. }
+      rewrite Hg, Hbits. reflexivity.
+Qed.
+
+(* ---- every finite double (the sign of a zero apart) survives oasis_write_real ; oasis_read_real,
+   whichever of the five forms the writer chooses *)
+Theorem oas_real_roundtrip_lemma bits rest :
+  (bits < 2 ^ 64)%N ->
+  fin64 (b64_of_bits (Z.of_N bits)) = true ->
+  bits <> 9223372036854775808%N ->
+  dec_real (enc_real bits ++ rest) = Ok (bits, rest).
+Proof.
+  intros Hb Hfin Hnz.
+  assert (Hhd : ((hd 0 (enc_real bits) = 0 \/ hd 0 (enc_real bits) = 1)
+             \/ (hd 0 (enc_real bits) = 2 \/ hd 0 (enc_real bits) = 3)
+             \/ hd 0 (enc_real bits) = 7)%N).
+  { unfold enc_real.
+    destruct (int_magnitude_lt64 (b64_of_bits (Z.of_N bits))) as [v|].
+    - cbn [hd]. destruct (b64_ge0 _); auto.
+    - destruct (int_magnitude_lt64 (b64_div mode_NE b64_one (b64_of_bits (Z.of_N bits)))) as [w|].
+      + destruct (b64_eqb _ _); cbn [hd]; [destruct (b64_ge0 _)|]; auto.
+      + cbn [hd]. auto. }
+  destruct Hhd as [H|[H|H]].
+  - apply oas_real_integer_form_roundtrip_lemma; assumption.
+  - apply oas_real_reciprocal_form_roundtrip_lemma; assumption.
+  - apply oas_real_roundtrip_when_double_form; assumption.
+Qed.
+
+(* non-vacuity: 0.2 (reciprocal form), -3 (integer form) and 0.3 (8-byte form) meet the hypotheses *)
+Example oas_real_nonvacuous :
+  (hd 0 (enc_real 4596373779694328218) = 2 /\ hd 0 (enc_real 13837309855095848960) = 1
+   /\ hd 0 (enc_real 4599075939470750515) = 7)%N
+  /\ fin64 (b64_of_bits 4596373779694328218) = true.
+Proof. split; [split; [|split]|]; vm_compute; reflexivity. Qed.
+
 Print Assumptions oas_real_double_form_roundtrip_lemma.
-Print Assumptions oas_real_roundtrip_when_double_form.
+Print Assumptions oas_real_reciprocal_form_roundtrip_lemma.
+Print Assumptions oas_real_integer_form_roundtrip_lemma.
+Print Assumptions oas_real_roundtrip_lemma.
